@@ -74,6 +74,11 @@ TreeOK ==
             /\ Height(b) >= minh[r]                                     \* locktime
        /\ ~(Place(2, b) # None /\ Place(4, b) # None)                   \* 2 and 4 double-spend each other
 
+\* The client's best chain moves to a descendant, to another branch that is at least as high, or
+\* (walking back, as the repo's tests do with disconnect_blocks) to an ancestor.  A best chain that
+\* is SHORTER than the previous one and not a prefix of it does not occur (equal work per block).
+MoveOK(old, new) == new \in Blocks /\ new # old /\ (Anc(new, old) \/ Height(new) >= Height(old))
+
 -----------------------------------------------------------------------------
 (* The notification contract, for ONE notified object whose knowledge is   *)
 (*   tp    the block it was last told is the best block                    *)
